@@ -115,6 +115,35 @@ def run(tier, t0):
                 v.report("lb/hash-unstable", {"key_expr": arg, "members_per_key": {k: sorted(x or "-" for x in s) for k, s in by.items()}}, rep)
         if len(samples) < 3 and algo in ("rr", "hash"):
             samples.append({"members": ms, "algo": algo, "arg": arg, "events": lines[1:4], "sum": lines[-1]})
+    # what is recorded on the connection is the member that carried it (or was tried): also through a nested balancer,
+    # also when the member's connect fails
+    for ni, (yamls, leaves, fail) in enumerate([
+            (["name: inner\ntype: loadbalance\nconnectors: [m1, m2]\nalgo: rr\n", "name: lb\ntype: loadbalance\nconnectors: [inner, m3]\nalgo: rr\n"], ["m1", "m2", "m3"], []),
+            (["name: inner\ntype: loadbalance\nconnectors: [m1, m2]\nalgo: random\n", "name: lb\ntype: loadbalance\nconnectors: [m3, inner]\nalgo: {hashBy: \"request.target\"}\n"], ["m1", "m2", "m3"], []),
+            (["name: lb\ntype: loadbalance\nconnectors: [m1, m2, m3]\nalgo: rr\n"], ["m1", "m2", "m3"], ["m2"]),
+            (["name: inner\ntype: loadbalance\nconnectors: [m1, m2]\nalgo: rr\n", "name: lb\ntype: loadbalance\nconnectors: [inner, m3]\nalgo: rr\n"], ["m1", "m2", "m3"], ["m1", "m3"])]):
+        case = {"id": 2000 + ni, "yamls": yamls, "lb": "lb", "members": leaves, "fail": fail, "tasks": 4, "per_task": 30, "reqs": reqs_pool(rnd, 40)}
+        cp = os.path.join(wd, "nested_%d.ndjson" % ni)
+        vlib.write_ndjson(cp, [case])
+        rc, out, err = vlib.vh(["lb", cp], timeout=300)
+        if rc != 0:
+            raise vlib.ToolError("vh lb (nested) failed: " + err)
+        r = [json.loads(x) for x in out.splitlines() if x.strip()][0]
+        rep = {"driver": "vh lb", "case": case}
+        if r["load"] != "ok":
+            v.report("lb/load/nested/%s" % r["load"], r.get("err"), rep)
+            continue
+        inv = {cid: name for name, cid in r["invoked"]}
+        lines = [{"ev": "hdr", "members": leaves, "algo": "nested", "mode": "conc", "keys": ["-"]}]
+        lines += [{"ev": "obs", "invoked": inv.get(c["ctx"], "NONE"), "recorded": c["recorded"] or "NONE"} for c in r["calls"]]
+        tp = os.path.join(wd, "nested_trace_%d.ndjson" % ni)
+        vlib.write_ndjson(tp, lines)
+        acc, info, tr = vlib.validate_trace("TraceLB", "TraceLB.cfg", tp, timeout=300, name="trace_lb_nested")
+        traces += 1
+        events += len(lines)
+        if not acc:
+            bad = [l for l in lines[1:] if l["invoked"] != l["recorded"]][:3]
+            v.report("lb/recorded-is-not-the-member-used/%s" % ("failing-member" if fail else "nested"), {"balancers": yamls, "failing": fail, "examples": bad, "info": info[:200]}, rep)
     # round robin under heavy contention: many threads, nothing but the selection is shared; judged by TraceLB's totals law
     hammered = 0
     for hi, ms in enumerate(member_sets):
